@@ -3,6 +3,8 @@
 (* reference semantics of CertChainProps.  One trace =                      *)
 (*   [id, rootkey, targets : Seq(name),                                      *)
 (*    els : Seq([name, by, key, msg, val, sigk, sigt, sigover, tweak]),      *)
+(*    spell : "" | member of SpellAccepted / SpellRefused (how the file      *)
+(*            writes its hex fields; `els` always describes the bytes),      *)
 (*    outcome : "loaded" | "error" | "hang",                                 *)
 (*    res : Seq([target, valid, name, value])]                               *)
 (* `els` is the symbolic description of the REAL certificate the harness     *)
@@ -27,19 +29,20 @@ TInit == /\ tid \in 1..Len(Traces) /\ l = 0 /\ bad = ""
 \* the load outcome
 Load == /\ bad = "" /\ l = 0
         /\ bad' = IF T.outcome = "hang" THEN "Terminates"
-                  ELSE IF T.outcome = "error" /\ WellFormed(C, T.targets) THEN "LoadsWellFormedCertificate"
+                  ELSE IF T.outcome = "error" /\ Loadable(C, T.targets, T.spell) THEN "LoadsWellFormedCertificate"
                   ELSE ""
         /\ l' = 1 /\ UNCHANGED tid
 
 \* one target of a loaded certificate
-Target == /\ bad = "" /\ l >= 1 /\ l <= Len(T.targets) /\ T.outcome = "loaded"
+\* (a file with a refused spelling has no defined bytes: if it loads all the same, nothing is judged here)
+Target == /\ bad = "" /\ l >= 1 /\ l <= Len(T.targets) /\ T.outcome = "loaded" /\ T.spell \in SpellAccepted
           /\ LET x == T.targets[l] IN
              bad' = IF Obs(x) = {} THEN "VerdictForEveryTarget"
                     ELSE LET js == {JudgeTarget(C, T.rootkey, x, o) : o \in Obs(x)} \ {""} IN
                          IF js = {} THEN "" ELSE CHOOSE j \in js : TRUE
           /\ l' = l + 1 /\ UNCHANGED tid
 
-Last == IF T.outcome = "loaded" THEN Len(T.targets) + 1 ELSE 1
+Last == IF T.outcome = "loaded" /\ T.spell \in SpellAccepted THEN Len(T.targets) + 1 ELSE 1
 TNext == Load \/ Target
 TSpec == TInit /\ [][TNext]_tvars
 
